@@ -49,11 +49,44 @@ Section C05.
     forall N, read_records Tm St Rec (run_frames Tm t0 tadd St Rec updf k dt0 v0 N)
               = map (recd Tm t0 tadd St Rec updf dt0 v0) (seq 0 N).
   Proof. intros. apply records_once_in_order. exact k_pos. Qed.
+
+  (* Solution.times, computed by the reader from the per-step dt values alone, is the list of times stored in the
+     frames, frame by frame (frames at 0, k, 2k, ... and the final step) *)
+  Theorem C05_times_are_frame_times :
+    forall N,
+      solution_times Tm t0 tadd k (map (fun j => D Tm t0 tadd St Rec updf dt0 v0 (S j)) (seq 0 N))
+      = map (f_time _ _ _) (run_frames Tm t0 tadd St Rec updf k dt0 v0 N).
+  Proof. intros. apply times_are_frame_times. exact k_pos. Qed.
+
+  (* ... and from the records as read back from the file, for every update that records the dt it used *)
+  Theorem C05_times_from_records :
+    forall (rec_dt : Rec -> Tm) N,
+      (forall i t d v, rec_dt (snd (updf i t d v)) = fst (fst (updf i t d v))) ->
+      solution_times Tm t0 tadd k (map rec_dt (read_records Tm St Rec (run_frames Tm t0 tadd St Rec updf k dt0 v0 N)))
+      = map (f_time _ _ _) (run_frames Tm t0 tadd St Rec updf k dt0 v0 N).
+  Proof. intros. apply times_from_records; assumption. Qed.
+
+  (* thermalisation (skip_time) leaves no trace: step and time restart at 0 and the frames are those of a plain run
+     started from the thermalised values *)
+  Theorem C05_thermalisation_unrecorded :
+    forall (sk solve_time : Tm) (M N fuel : nat),
+      (forall j, j < M -> tleb sk (T Tm t0 tadd St Rec updf dt0 v0 j) = false) ->
+      tleb sk (T Tm t0 tadd St Rec updf dt0 v0 M) = true -> M < fuel ->
+      let dt1 := D Tm t0 tadd St Rec updf dt0 v0 M in
+      let v1 := V Tm t0 tadd St Rec updf dt0 v0 M in
+      (forall j, j < N -> tleb solve_time (T Tm t0 tadd St Rec updf dt1 v1 j) = false) ->
+      tleb solve_time (T Tm t0 tadd St Rec updf dt1 v1 N) = true -> N < fuel ->
+      let res := run Tm t0 tadd tleb St Rec (upd_ok Tm St Rec updf) k true fuel (Some sk) solve_time dt0 v0 in
+      fst res = Finished /\ r_frames _ _ _ (snd res) = run_frames Tm t0 tadd St Rec updf k dt1 v1 N.
+  Proof. intros. apply thermalisation_unrecorded; assumption. Qed.
 End C05.
 Print Assumptions C05_run_frames_correct.
 Print Assumptions C05_frame_steps.
 Print Assumptions C05_frame_content.
 Print Assumptions C05_records_once_in_order.
+Print Assumptions C05_times_are_frame_times.
+Print Assumptions C05_times_from_records.
+Print Assumptions C05_thermalisation_unrecorded.
 
 (* the loop as found (stop test after the update) put N+1 updates into the frame labelled N *)
 Theorem C05_as_found_refuted :
